@@ -26,6 +26,8 @@ BODIES = [
     ('=#1=', 1, 'Gddq', [('t', '='), ('a', 0), ('t', '=')]),
     ('#2', 2, None, [('a', 1)]),
     ('\\mB{#1}\\mB{Geq}', 1, None, [('call', '\\mB', [[('a', 0)]]), ('call', '\\mB', [[('t', 'Geq')]])]),
+    ('v#1.#10', 1, None, [('t', 'v'), ('a', 0), ('t', '.'), ('a', 0), ('t', '0')]),      # '#10' is parameter 1 followed by the digit 0
+    ('#20#1', 2, None, [('a', 1), ('t', '0'), ('a', 0)]),
 ]
 MB = ('{#1}', 1, None, [('a', 0)])      # helper macro \mB: braces around its argument
 DEFINERS = ['newcommand', 'renew', 'def']
